@@ -3,7 +3,7 @@ SPEC = dict(
     prop="C33",
     proof_module="SimbodyProofs.C33",
     sources=["SimbodyModel/Proto.lean", "SimbodyModel/C33.lean", "SimbodyModel/C33_PE.lean", "SimbodyModel/C33_WQ.lean",
-             "SimbodyProofs/C33_lemmas.lean", "SimbodyProofs/C33_PE_lemmas.lean", "SimbodyProofs/C33_WQ_lemmas.lean",
+             "SimbodyProofs/C33_lemmas.lean", "SimbodyProofs/C33_PE_lemmas.lean", "SimbodyProofs/C33_WQ_lemmas.lean", "SimbodyProofs/C33_WQ_live.lean",
              "SimbodyProofs/C33.lean", "Drivers/C33.lean"],
     n=dict(quick=300, thorough=6000),
     rtol=0.0, atol=0.0,
